@@ -81,6 +81,24 @@ Definition op_parse_header (v : val) : val :=
   eresult e_inst (rmap header_of (parse_entry (d_entry (dnth 1 v)) (d_cls (dnth 0 v)) (d_text (dnth 2 v))
                                               (mkFlags (dbool (dnth 3 v)) false) (d_text (dnth 4 v)))).
 
+(* c10.parse_path (class entrypoint path_or_url autocorrect header_only content) -> result instance
+   entrypoint 0 = parse_file(path), 2 = parse_url(url), 3 = get_parsed_instance(path): the declared type is derived
+   from the path / URL as the entry point does *)
+Definition op_parse_path (v : val) : val :=
+  let c := d_cls (dnth 0 v) in
+  let p := d_text (dnth 2 v) in
+  let f := mkFlags (dbool (dnth 3 v)) (dbool (dnth 4 v)) in
+  let t := d_text (dnth 5 v) in
+  eresult e_inst (match dnat (dnth 1 v) with
+                  | O => parse_file_path c p f t
+                  | 2%nat => parse_url_url c p f t
+                  | _ => get_parsed_instance_path p f t
+                  end).
+(* c10.declared (path url) -> (splitext_ext path, url_ext url) *)
+Definition op_declared (v : val) : val :=
+  VL [e_text (splitext_ext (d_text (dnth 0 v))); e_text (url_ext (d_text (dnth 1 v)))].
+
 Definition ops : optable :=
   [ ("c10.parse", op_parse); ("c10.get", op_get); ("c10.dispatch", op_dispatch); ("c10.validate", op_validate);
-    ("c10.restyle", op_restyle); ("c10.header", op_header); ("c10.parse_header", op_parse_header) ].
+    ("c10.restyle", op_restyle); ("c10.header", op_header); ("c10.parse_header", op_parse_header);
+    ("c10.parse_path", op_parse_path); ("c10.declared", op_declared) ].
